@@ -251,8 +251,15 @@ class Lib:
                 return eng.empty_list(st, shape[5:])
         return v
 
+    def sum_model(self):
+        for m in self.ext.models:
+            if type(m).__name__ == "SumModel":
+                return m
+
     def note_append(self, st, old, new, t):
         sm = self.stream_model()
+        if old.eshape.startswith("ref:"):
+            self.sum_model().step_facts(st, new, old.n)
         if sort_of_shape(old.eshape) == U:
             st.assume(sm.LSEQU(new.arr, new.n) ==
                       sm.CAT(sm.seq_of_list(st, old), sm.UNIT(t)))
@@ -598,6 +605,8 @@ class Lib:
                     stop()
                 if lst.ms is not None:
                     self.lpms_facts(st, lst, K())
+                if lst.eshape.startswith("ref:"):
+                    self.sum_model().step_facts(st, lst, K())
                 return wrap(lst.eshape, lst.arr[K()])
             return pull_list
         if isinstance(srcv, VTuple):
@@ -868,6 +877,18 @@ class Lib:
     def sp_stream(self, st, node):
         v = self.eng.eval(st, node.args[0])
         return VStream(self.stream_model().stream_of(st, v))
+
+    def sp_lsum(self, st, node):
+        """lsum(list, 'field'[, k]): sum of an int field over the first k
+        (default: all) elements of a list of records, current heap"""
+        from .models import SSUM
+        eng = self.eng
+        lst = eng.eval(st, node.args[0])
+        fld = node.args[1].value
+        key, shp = eng.field_key(lst.eshape[4:], fld)
+        f = eng.heap_arr(st, key, IntS)
+        k = eng.eval(st, node.args[2]).t if len(node.args) > 2 else lst.n
+        return VInt(SSUM(f, lst.arr, k))
 
     def sp_EMPTY_LIST_U(self, st, node):
         return self.eng.empty_list(st, "U")
